@@ -64,17 +64,27 @@ def main():
         ncpu = os.cpu_count() or 8
         # Verus units first in parallel, kani groups are internally parallel: run kani groups 2 at a time.
         vjobs = [(l, f) for (l, f, k) in jobs if k == "verus"]
-        kjobs = [(l, f) for (l, f, k) in jobs if k == "kani"]
+        buckets = {}
+        for (l, f, k) in jobs:
+            if k.startswith("kani"):
+                buckets.setdefault(k, []).append((l, f))
         results = []
-        # Verus units (CPU-light, 2 GB) run in parallel with the Kani groups; Kani groups run one after another
-        # (each is internally parallel and sized to the memory budget).
+        # Verus units (CPU-light, 2 GB) run in parallel with the Kani groups; Kani groups of one feature set run one
+        # after another, groups of different feature sets concurrently (props.KANI_BUCKETS at a time).
         import threading
         vres = []
         vt = None
         if vjobs:
             vt = threading.Thread(target=lambda: vres.extend(run_parallel(vjobs, min(len(vjobs), max(2, ncpu // 4)))))
             vt.start()
-        kres = run_parallel(kjobs, 1) if kjobs else []
+        kres = []
+        if buckets:
+            bjobs = [(k, (lambda js=js: run_parallel(js, 1))) for k, js in sorted(buckets.items())]
+            for rs in run_parallel(bjobs, props.KANI_BUCKETS):
+                if isinstance(rs, list):
+                    kres.extend(rs)
+                else:
+                    kres.append(rs)      # internal error wrapped as a UnitResult
         if vt:
             vt.join()
         results = vres + kres
